@@ -558,6 +558,66 @@ fn mixed_group_sweep(k: usize, max_mentions: usize) -> Sweep {
     })
 }
 
+// Arithmetic / comparison sentences over literals as initial states (every operator, chains, grouped
+// operands): redundant parentheses and the wrappers are applied at every subexpression, which is
+// where precedence and association could make a difference.
+fn expression_sweep(tier: Tier) -> Sweep {
+    use crate::model::{grammar::Grammar, tok::{K, Tok}};
+    let g = Grammar::load().restrict(
+        &[K::IntegerLiteral, K::LeftParen, K::RightParen, K::Plus, K::Minus, K::Asterisk, K::Slash, K::LessThan, K::LessThanOrEqualTo, K::DoubleEquals, K::GreaterThan, K::GreaterThanOrEqualTo],
+        &["let", "application", "non_dependent_pi"],
+    );
+    let sentences = Rc::new(std::cell::RefCell::new(crate::enumerate::Sentences::new(g.clone(), 5, tier.pick(9, 10))));
+    let total = sentences.borrow().total;
+    let s2 = sentences.clone();
+    let g2 = g.clone();
+    const VALUES: [&str; 6] = ["10", "3", "2", "6", "7", "1"];
+    let tokens_of = move |g: &Grammar, tree: &crate::model::grammar::Tree| -> Vec<Tok> {
+        let mut n = 0;
+        crate::enumerate::name_simple(g, tree)
+            .into_iter()
+            .map(|t| {
+                if t.k == K::IntegerLiteral {
+                    n += 1;
+                    Tok::lit(VALUES[(n - 1) % VALUES.len()])
+                } else {
+                    t
+                }
+            })
+            .collect()
+    };
+    Sweep::new(
+        "rewrite graph to depth 1 from arithmetic and comparison sentences over literals",
+        total,
+        move |idx| {
+            let tree = sentences.borrow_mut().tree(idx);
+            let toks = tokens_of(&g, &tree);
+            let s = surface::reassoc(&surface::FromTree::new(&g, &toks).convert(&tree));
+            count!("evaluations");
+            count!("expression_initial_programs");
+            let mut head = &s;
+            while let S::Paren(inner) = head {
+                head = inner;
+            }
+            let goal = match head {
+                S::Bin(Op::Lt | Op::Le | Op::Eq | Op::Gt | Op::Ge, ..) => Ty::Bool,
+                _ => Ty::Int,
+            };
+            search(&s, &goal, 1, 300, false);
+        },
+        move |idx| {
+            let tree = s2.borrow_mut().tree(idx);
+            crate::model::tok::layout(&crate::enumerate::name_simple(&g2, &tree)).0
+        },
+    )
+    .with_post_abort(|_, kind| AbortVerdict::Violation {
+        sub: "abnormal-ending".to_owned(),
+        input: String::new(),
+        expected: "the behaviour of the initial program".to_owned(),
+        actual: kind.to_owned(),
+    })
+}
+
 impl Prop for C19 {
     fn id(&self) -> &'static str {
         "C19"
@@ -569,12 +629,13 @@ impl Prop for C19 {
             family_sweep(tier),
             mixed_group_sweep(4, 1),
             mixed_group_sweep(3, 2),
+            expression_sweep(tier),
         ]
     }
     fn evidence(&self, tier: Tier) -> EvidenceSpec {
         EvidenceSpec {
             level: "model_checking",
-            rule: "states = program texts; initial states = every type-directed program of type int, bool or type up to the size bound, every member of the nested-group family (recursive functions with helpers defined before or after them, nested groups), and every member of the mixed-group family (groups of 4 annotated definitions, each a literal, a function or a computed definition mentioning at most 1 member of the group, and groups of 3 mentioning at most 2, any member as the body), that the real front end accepts and the real evaluator takes to a value; transitions = one rewrite at one site: R1 rename any bound variable consistently, R2 parenthesise any subexpression, R3 add an unused definition (a value, a non-value, a type) in front of the program or at the end of its outermost group, R4 name the program with a definition, R5 wrap the program or any subexpression whose head fixes its type in an immediately applied annotated identity function, R6 wrap it in `if true then e else e`, R7 swap two function definitions of a group, adjacent or not, that do not mention each other. Breadth-first search to depth 2 (smaller programs) / 1 (larger), dedup on the program text. Every reachable program is run through the real front end and evaluator and must show the behaviour of the initial program (same acceptance, same value). non-trivial = initial programs whose whole neighbourhood was explored".to_owned(),
+            rule: "states = program texts; initial states = every type-directed program of type int, bool or type up to the size bound, every member of the nested-group family (recursive functions with helpers defined before or after them, nested groups), and every member of the mixed-group family (groups of 4 annotated definitions, each a literal, a function or a computed definition mentioning at most 1 member of the group, and groups of 3 mentioning at most 2, any member as the body), and every arithmetic / comparison sentence over literals of 5..9/10 tokens, that the real front end accepts and the real evaluator takes to a value; transitions = one rewrite at one site: R1 rename any bound variable consistently, R2 parenthesise any subexpression, R3 add an unused definition (a value, a non-value, a type) in front of the program or at the end of its outermost group, R4 name the program with a definition, R5 wrap the program or any subexpression whose head fixes its type in an immediately applied annotated identity function, R6 wrap it in `if true then e else e`, R7 swap two function definitions of a group, adjacent or not, that do not mention each other. Breadth-first search to depth 2 (smaller programs) / 1 (larger), dedup on the program text. Every reachable program is run through the real front end and evaluator and must show the behaviour of the initial program (same acceptance, same value). non-trivial = initial programs whose whole neighbourhood was explored".to_owned(),
             assumptions: vec!["no reference model is involved: the comparison is between two runs of the real code".to_owned()],
             evaluations: "evaluations",
             nontrivial: "nontrivial",
